@@ -403,8 +403,11 @@ def topological_sort(nodes):
     known = set(x + y for x in "uir" for y in ["8", "16", "32", "64"])
     available = set(node.name for node in nodes)
     for index in range(len(nodes)):
+        visited = {id(nodes[index])}
         while model_sort_rotate():
-            pass
+            if id(nodes[index]) in visited:
+                raise ModelError("Cyclic dependency of '%s'." % nodes[index].name)
+            visited.add(id(nodes[index]))
 
 
 def _make_types_index(nodes_):
